@@ -394,3 +394,17 @@ fn pn_glue_5() {
 fn pn_glue_6() {
     pn_glue::<6>()
 }
+
+// ---- deliberately false twin (thorough tier): must come back FAILED, otherwise the family is vacuous ---------------
+#[kani::proof]
+#[kani::unwind(10)]
+#[kani::stub(alloc::fmt::format, fmt_stub)]
+fn twin_dec_hdr_false() {
+    let bytes: [u8; 6] = kani::any();
+    let mut inner = mk_inner(Body::empty(), any_direction(), kani::any());
+    inner.buf.put_slice(&bytes);
+    let r = inner.decode_chunk(BufferSettings::default());
+    core::mem::forget(r);
+    core::mem::forget(inner);
+    assert!(false, "false twin: this assertion must be reported as violated");
+}
